@@ -148,15 +148,15 @@ Proof.
   intro R. destruct x; try discriminate; cbn [sstep]; destruct (step O (Outline.base s) _); reflexivity.
 Qed.
 
-Definition renumber_dom_s (s : state) : Prop :=
-  fits 1 (rdoc_of_state s) /\ RenumberProofsTop.KnownClass 1 (rdoc_of_state s) = false.
+(* fewer than 2^32 objects; nothing else is needed since /repo e5c19fd (C10's renumber_dense_all) *)
+Definition renumber_dom_s (s : state) : Prop := fits 1 (rdoc_of_state s).
 
 Lemma renumber_state_spec s : doc_wf (Outline.base s) -> renumber_dom_s s ->
   exists s', renumber_state s = (s', OUnit) /\ doc_wf (Outline.base s') /\ alloc_ok (Outline.base s') /\
              Outline.max_bookmark_id s' = Outline.max_bookmark_id s /\ Outline.bookmarks s' = Outline.bookmarks s /\
              map fst (Outline.bookmark_table s') = map fst (Outline.bookmark_table s).
 Proof.
-  intros W [F K]. destruct (renumber_dense 1 (rdoc_of_state s) W F K) as [rd [E [L [Nm [_ [S [_ [Mx M0]]]]]]]].
+  intros W F. destruct (renumber_dense_all 1 (rdoc_of_state s) W F) as [rd [E [L [Nm [_ [S [_ [Mx M0]]]]]]]].
   assert (Er : renumber_objects (rdoc_of_state s) = Done rd) by exact E.
   unfold renumber_state. rewrite Er. eexists. split; [reflexivity|]. cbn [Outline.base Outline.max_bookmark_id Outline.bookmarks Outline.bookmark_table].
   split; [exact S|]. split; [|split; [reflexivity|split; [reflexivity|]]].
